@@ -798,7 +798,7 @@ impl IpBlocks {
     // R12: `self.iter()` is `self.0.iter().copied()` (an `impl Iterator` adapter without Verus model);
     // the loop runs over the slice iterator itself (`range: &IpBlock` instead of a copy)
     //@fn src/repository/resources/ipres.rs :: impl IpBlocks :: contains_roa loopiso
-    //@sub R12 "for range in self.iter()" "for range in self.0.iter()"
+    //@sub R12 "in self.iter()" "in self.0.iter()"
     //@spec
         ensures
             r == ip_covers_range(*self, roa_min(*addr), roa_max(*addr)),
@@ -815,11 +815,11 @@ impl IpBlocks {
                 ip_set(*self).contains(x) == in_view(ip_v(*self), x));
         }
     //@/ghost
-    //@loop "for range in self.0.iter()" iter=it
+    //@loop "in self.0.iter()" iter=it
             invariant
                 it.seq().len() == ip_v(*self).len(),
                 forall|i: int| 0 <= i < ip_v(*self).len() ==> *(#[trigger] it.seq()[i]) == ip_v(*self)[i],
-                forall|i: int| 0 <= i < it.index@ ==> !((#[trigger] ip_v(*self)[i]).lo() <= min.0 as int && max.0 as int <= ip_v(*self)[i].hi()),
+                forall|i: int| 0 <= i < it.index@ ==> !((#[trigger] ip_v(*self)[i]).lo() <= roa_min(*addr) && roa_max(*addr) <= ip_v(*self)[i].hi()),
     //@/loop
     //@end
 
